@@ -1223,4 +1223,56 @@ example :=
     { hl := rfl, hsize := by decide, hw := rfl, hm := rfl } rfl (by decide) (by decide)
     (by intro o ho; simp [exInstStarted, exInst] at ho; rcases ho with rfl | rfl | rfl <;> decide)
 
+/-- **groupvm_is_corevm_partial (and-clause, phase 1, through the interpreter model's real `_advance_head_front`).**  The hypotheses of
+    `groupvm_is_corevm_partial`, the flow STARTED and every head inside the program.  CoreVM's own `advanceHeadFront`, called with the
+    LIST of member heads that wait on `match e` (what `runToCompletion` hands it for one event) — its loop with the `actionable`
+    accumulator, the flow-status bookkeeping, the try/except around `slide`, the "all heads are waiting" scan and the final filter —
+    ends in exactly the state `GroupVM.p1Members e n [] ms` describes, changes nothing else, and returns exactly the member heads
+    that are MERGING afterwards, in order: the input of the merging loop.  Any clause size, any `n`. -/
+theorem groupvm_is_corevm_partial_advance_heads (fuel : Nat) (s : CoreVM.VM) (f : CoreIndex.FUid) (i : CoreIndex.Inst) (x : CoreVM.InstX)
+    (cfg : CoreVM.FlowCfg) (l mu : String) (pe n e : Nat)
+    (others : List CoreVM.HCore) (us : List (CoreIndex.HUid × Nat)) (ms : List (Nat × MLoc))
+    (F : CoreVM.FlowAt s f i x cfg) (hown : x.ctxOwner = none) (C : CoreVM.ClauseShape cfg l mu pe n)
+    (S : CoreVM.MembersShape cfg l pe us)
+    (hlen : us.length = ms.length) (hnd : (others.map (·.1) ++ us.map (·.1)).Nodup)
+    (hoth : others.filter (CoreVM.liveAt (pe + 1)) = [])
+    (hv : CoreVM.hview i = others ++ CoreVM.renderU (pe + 1) us ms)
+    (hstarted : i.status = .started) (hrange : ∀ o ∈ i.heads, o.pos < cfg.elements.size) :
+    ∃ s' i', CoreVM.advanceHeadFront (fuel + 4) ((CoreVM.matchingU e us ms).map fun h => (f, h)) s
+        = .ok (((CoreVM.matchingU e us ms).filter fun h =>
+            decide ((h, pe + 2, CoreIndex.HeadStatus.merging) ∈ CoreVM.hview i')).map fun h => (f, h)) s' ∧
+      CoreVM.FlowAt s' f i' x cfg ∧ s'.r = s.r ∧
+      CoreVM.hview i' = others ++ CoreVM.renderU (pe + 1) us (p1Members e n [] ms) :=
+  CoreVM.and_clause_phase1_real fuel s f i x cfg l mu pe n e others us ms F hown C S hlen hnd hoth hv hstarted hrange
+
+/-- `match E0() and E1()` in a STARTED flow, E0 already received: `h1` parked on `WaitForHeads 2`, `h2` on `match E1()` -/
+def exIxsStartedWait : CoreVM.IxS :=
+  (((((({} : CoreVM.IxS).apply (.addInst "m" "h0" none) (by decide)).apply (.setPos "m" "h0" 2 none) (by decide)).apply
+    (.setStatus "m" "h0" .inactive none) (by decide)).apply (.fork "m" "h1" none 14 none) (by decide)).apply
+    (.fork "m" "h2" none 7 none) (by decide)).apply (.setFlowStatus "m" .started) (by decide)
+def exVMStartedWait : CoreVM.VM := { ixs := exIxsStartedWait, r := { prog := { flows := [exCfgAnd] }, fx := [("m", exXFork)] } }
+def exInstStartedWait : CoreIndex.Inst := { uid := "m", status := .started, heads := [
+  { uid := "h0", pos := 2, status := .inactive, elem := none }, { uid := "h1", pos := 14, status := .active, elem := none },
+  { uid := "h2", pos := 7, status := .active, elem := none }] }
+
+-- non-vacuity of `groupvm_is_corevm_partial_advance_heads`: event E1 completes the clause (the list handed over is [h2], h2 ends MERGING)
+example :=
+  groupvm_is_corevm_partial_advance_heads 1 exVMStartedWait "m" exInstStartedWait exXFork exCfgAnd "e" "u" 13 2 1 [("h0", 2, .inactive)]
+    [("h1", 4), ("h2", 7)] [(0, .atWait), (1, .atMatch)]
+    { hi := rfl, hx := rfl, hc := rfl } rfl
+    { hl := rfl, hsize := by decide, hw := rfl, hm := rfl }
+    (by intro u hu; simp at hu; rcases hu with rfl | rfl <;> exact ⟨rfl, by decide⟩)
+    rfl (by decide) rfl rfl rfl
+    (by intro o ho; simp [exInstStartedWait] at ho; rcases ho with rfl | rfl | rfl <;> decide)
+example : CoreVM.matchingU 1 [("h1", 4), ("h2", 7)] [(0, .atWait), (1, .atMatch)] = ["h2"] := by decide
+-- … and both member heads in one call (event E0 on the fresh group: the list is [h1], parked; nothing handed back)
+example :=
+  groupvm_is_corevm_partial_advance_heads 1 exVMStarted "m" exInstStarted exXFork exCfgAnd "e" "u" 13 2 0 [("h0", 2, .inactive)]
+    [("h1", 4), ("h2", 7)] [(0, .atMatch), (1, .atMatch)]
+    { hi := rfl, hx := rfl, hc := rfl } rfl
+    { hl := rfl, hsize := by decide, hw := rfl, hm := rfl }
+    (by intro u hu; simp at hu; rcases hu with rfl | rfl <;> exact ⟨rfl, by decide⟩)
+    rfl (by decide) rfl rfl rfl
+    (by intro o ho; simp [exInstStarted, exInst] at ho; rcases ho with rfl | rfl | rfl <;> decide)
+
 end NemoVerif.C07
